@@ -446,6 +446,7 @@ func init() {
 		fs := flag.NewFlagSet("hostile-gen", flag.ExitOnError)
 		what := fs.String("what", "reify", "reify|hamt|file|dir")
 		pairs := fs.Bool("pairs", true, "also apply defects two at a time")
+		triples := fs.Bool("triples", false, "apply defects three at a time (only those)")
 		out := fs.String("out", "", "trace output")
 		fs.Parse(args)
 		tr, err := NewTr(*out)
@@ -458,9 +459,17 @@ func init() {
 		case "reify":
 			cases = reifyCases()
 		case "hamt":
-			cases = mutateAll("hamt", baseHamt, hamtMutators(), *pairs)
+			if *triples {
+				cases = mutateTriples("hamt", baseHamt, hamtMutators())
+			} else {
+				cases = mutateAll("hamt", baseHamt, hamtMutators(), *pairs)
+			}
 		case "file":
-			cases = mutateAll("file", baseFile, fileMutators(), *pairs)
+			if *triples {
+				cases = mutateTriples("file", baseFile, fileMutators())
+			} else {
+				cases = mutateAll("file", baseFile, fileMutators(), *pairs)
+			}
 		case "dir":
 			cases = mutateAll("dir", baseDir, dirMutators(), *pairs)
 		default:
